@@ -173,7 +173,10 @@ class Engine(
 
     def transfer(self, target: Relation, payload: Any | None = None) -> Select:
         # Docstring inherited.
-        return Select.apply_skip(super().transfer(target, payload))
+        # If the transfer simplifies away (the target already is, or reduces
+        # to, a relation in this engine) the result is already a Select and
+        # must not be wrapped in another one.
+        return self.conform(super().transfer(target, payload))
 
     def make_doomed_relation(
         self, columns: Set[ColumnTag], messages: Sequence[str], name: str = "0"
